@@ -50,7 +50,13 @@ def instances(tier, seed):
     other = [i for i in c10_inst if i['kind'] != 'eager']
     rnd.shuffle(other)
     n_e, n_o = (60, 40) if tier == 'quick' else (600, 400)
-    for i in eager[:n_e]+other[:n_o]:
+    # settings written for the merging of conditionally-active flags are always part of the sub-pool
+    flag = [i for i in c10_inst if 'flag merge' in i['label'] and i['kind'] != 'pattern']
+    # pattern encoders list their design vectors per existence pattern through their own (possibly transposed) look-up
+    flag += [i for i in c10_inst if i['kind'] == 'pattern']
+    picked = eager[:n_e]+other[:n_o]
+    picked += [i for i in flag if i not in picked]
+    for i in picked:
         i = dict(i)
         i['label'] = 'conn '+i['label']
         i['c07_kind'] = 'conn'
